@@ -221,9 +221,11 @@ for is_async, active_low in itertools.product((False, True), (False, True)):
 
     try:
         t = std.VhdlCompiler.to_string(CoTop)
-        decl = re.search(r"signal (s_\w+) : (\w+) := (\w+);", t)
+        decl = re.search(r"signal (s_\w+) : (\w+)(?: := (\w+))?;", t)
+        first = re.search(r"type " + decl.group(2) + r" is \((\w+)", t) if decl else None
         in_reset = [l for br in reset_branches(t) for l in br]
-        out["coroutine"].append({"async": is_async, "active_low": active_low, "state_signal": decl.group(1) if decl else None, "initial": decl.group(3) if decl else None,
+        # power-up value: the initial value of the declaration, otherwise (VHDL) the leftmost literal of the enumeration type
+        out["coroutine"].append({"async": is_async, "active_low": active_low, "state_signal": decl.group(1) if decl else None, "initial": (decl.group(3) or (first.group(1) if first else None)) if decl else None,
                                  "reset_assigns": [l for l in in_reset if decl and l.startswith(decl.group(1) + " <=")]})
     except Exception as e:  # noqa: BLE001
         out["coroutine"].append({"async": is_async, "active_low": active_low, "error": f"{type(e).__name__}: {str(e)[:120]}"})
